@@ -210,6 +210,7 @@ def run_modes(case, d, modes, pool):
         fut, argv0, words = futs[m]
         ob = fut.result()
         ob["expect_argv0"] = argv0
+        ob["cwd"] = d
         ob["cmd"] = ["hy"] + [w if w != case["src"] else "<CODE>" for w in words]
         out[m] = ob
     return out
@@ -286,6 +287,21 @@ def runpy_passes_run_name():
     return _RUNPY2
 
 
+ARGV0_TAG = "script-path-joined-to-cwd-(what-cmdline-passes-to-run_path)-instead-of-the-path-as-given"
+
+
+def cwd_joined(cwd, given, got):
+    """Root cause of the FILE-mode argv[0] finding: cmdline_handler makes the script path absolute with `Path.cwd() / filename` (for __file__) and
+    runpy.run_path then stores that very string in sys.argv[0], replacing the name as given that cmdline_handler had put there."""
+    import pathlib
+
+    return (
+        isinstance(cwd, str) and isinstance(given, str) and isinstance(got, str)
+        and not os.path.isabs(given)
+        and got == str(pathlib.PurePosixPath(cwd) / given)
+    )
+
+
 def tail(s, n=700):
     return s if len(s) <= n else "..." + s[-n:]
 
@@ -327,11 +343,11 @@ def judge(case, obs):
             got0 = bad0[0][0] if bad0[0] else None
             kind = case["file"] if m == "file" else case["module"] if m == "module" else m
             how = "other"
-            if m == "file" and isinstance(got0, str) and not os.path.isabs(ob["expect_argv0"]) and os.path.isabs(got0):
-                how = "absolute-path-instead-of-path-as-given"
+            if m == "file" and cwd_joined(ob.get("cwd"), ob["expect_argv0"], got0):
+                how = ARGV0_TAG
             fails.append((
-                "%s:argv[0]-wrong:%s" % (m, how),
-                dict(cmd=ob["cmd"], expected=ob["expect_argv0"], got=got0, layout=kind),
+                "%s:argv[0]-wrong|%s" % (m, how),
+                dict(cmd=ob["cmd"], expected=ob["expect_argv0"], got=got0, layout=kind, cwd=ob.get("cwd")),
                 [m],
             ))
     ref = usable.get("c")
@@ -693,4 +709,9 @@ def shard(ctx):
         drop_scratch(root)
 
 
-MATCHERS = {}
+def match_file_argv0_cwd_joined(case, bucket, detail):
+    return bucket == "file:argv[0]-wrong|" + ARGV0_TAG and isinstance(detail, dict) and cwd_joined(detail.get("cwd"), detail.get("expected"), detail.get("got"))
+
+
+# Only needed if the FILE-mode argv[0] deviation is recorded as a known finding instead of being repaired (fix-2.diff).
+MATCHERS = {"file_argv0_cwd_joined": match_file_argv0_cwd_joined}
